@@ -501,8 +501,14 @@ impl<'a> Searcher<'a> {
                     });
                 }
 
+                // LIMIT applies to the group rows (after ORDER BY)
+                let limit = match self.query.limit {
+                    0 => results.len(),
+                    limit => limit as usize,
+                };
+
                 let mut first = true;
-                results.iter().for_each(|items| {
+                results.iter().take(limit).for_each(|items| {
                     let mut buf = WritableBuffer::new();
                     if first {
                         first = false;
